@@ -98,7 +98,7 @@ func (c *c11) raw(ch *kernel.Chooser) string {
 		if s.authReq != "" {
 			return desc + " -> fault not reached"
 		}
-		return c.storageError(desc, resp, state, redirect)
+		return c.storageError(desc, resp, state, redirect, mode, respType)
 	}
 	if s.authReq == "" {
 		return desc + fmt.Sprintf(" -> authorize refused %d", resp.Status)
@@ -112,7 +112,7 @@ func (c *c11) raw(ch *kernel.Chooser) string {
 		inject()
 		r = c.b.Get(lr.Location)
 		w.Store.Inject = nil
-		return c.storageError(desc, r, state, redirect)
+		return c.storageError(desc, r, state, redirect, mode, respType)
 	}
 	if wantErr {
 		// the callback before the user is authenticated yields an error response (interaction_required) to the client
@@ -227,7 +227,7 @@ func (c *c11) raw(ch *kernel.Chooser) string {
 
 // storageError judges the answer to a request that failed inside the storage: if it is an error response to the
 // client, it carries an error and exactly the state the client sent - none, if it sent none.
-func (c *c11) storageError(desc string, r *world.Resp, state, redirect string) string {
+func (c *c11) storageError(desc string, r *world.Resp, state, redirect, mode, respType string) string {
 	if panicProbe(c.o, r) || r.Err != nil {
 		return desc
 	}
@@ -246,6 +246,18 @@ func (c *c11) storageError(desc string, r *world.Resp, state, redirect string) s
 	}
 	if got := p.Get("state"); got != state || len(p["state"]) > 1 {
 		c.viol("state", ar.Mode+"/storage-error", "%s: the client sent state %q, the error response carries %q", desc, state, p["state"])
+	}
+	// an error travels the way the client asked responses to travel (its user agent decodes that place and no other)
+	wantMode := mode
+	if wantMode == "" {
+		wantMode = map[bool]string{true: "query", false: "fragment"}[respType == "code"]
+	}
+	if wantMode == "form_post" && ar.Mode != "form_post" {
+		// the provider delivers errors by redirect even when form_post was asked for; the statement speaks of values
+		// arriving intact, not of errors using the auto-submitting form - counted, not judged
+		c.o.Probe("form_post-error-delivered-by-redirect")
+	} else if ar.Mode != wantMode {
+		c.viol("mode", wantMode+"/storage-error", "%s: the error response arrived in the %s, the request asked for %s delivery (response_type %q, response_mode %q)", desc, ar.Mode, wantMode, respType, mode)
 	}
 	if p.Get("code") != "" || p.Get("id_token") != "" || p.Get("access_token") != "" {
 		c.viol("error", ar.Mode+"/storage-error-leak", "%s: error response carries a code or token", desc)
